@@ -71,6 +71,32 @@ def rfcTraceFrom (cfg : Cfg) : RConn → Hist → List St
 /-- the state after every command of a history, by the RFC diagram -/
 def rfcTrace (cfg : Cfg) (h : Hist) : List St := rfcTraceFrom cfg (rfcInit cfg) h
 
+/-! ### the backend's own view
+
+  A backend keeps track of the mailbox it has open from what it was told: a Select that succeeded
+  opens one, an Unselect (or Unauthenticate) that succeeded releases it. The connection state and
+  this view must not drift apart in the dangerous direction: a selected-state operation must never
+  reach a backend that has no mailbox (RFC 9051 §3.3: these commands operate on the selected mailbox). -/
+
+/-- does the session method operate on the currently selected mailbox? -/
+def needsMailbox : SessionCall → Bool
+  | .unselect | .expunge | .search | .fetch | .store | .copy | .move => true
+  | _ => false
+
+/-- the backend's view (is a mailbox open?) after a call; a call that was refused changes nothing -/
+def bviewStep (open_ : Bool) (call : SessionCall) (failed : Bool) : Bool :=
+  if failed then open_ else
+  match call with
+  | .select => true
+  | .unselect | .unauthenticate => false
+  | _ => open_
+
+/-- first call in the list that needs a mailbox while the backend has none; the view afterwards -/
+def bviewCheck : Bool → List (SessionCall × Bool) → Bool × Option SessionCall
+  | b, [] => (b, none)
+  | b, (call, failed) :: rest =>
+    if needsMailbox call && !b then (b, some call) else bviewCheck (bviewStep b call failed) rest
+
 /-! ### capability advertisement -/
 
 /-- AUTH=PLAIN is offered iff authentication is possible right now -/
